@@ -78,8 +78,20 @@ pub struct BatchResult {
 
 /// Run `jobs` in one fresh worker process connected to reference lane `sock`.
 /// Never panics: a worker that dies or stalls yields missing records plus a note.
+pub const DENSE_EXE: &str = "/verif/target/dense/x86_64-unknown-linux-gnu/release/sim";
+
 pub fn run_batch(sock: &str, jobs: &[Job], per_job_timeout: Duration) -> BatchResult {
-    let exe = std::env::current_exe().expect("current_exe");
+    let mut exe = std::env::current_exe().expect("current_exe");
+    if jobs.iter().any(|j| j.dense) {
+        if std::path::Path::new(DENSE_EXE).exists() {
+            exe = PathBuf::from(DENSE_EXE);
+        } else {
+            return BatchResult {
+                records: jobs.iter().map(|_| None).collect(),
+                note: Some("dense build not available".to_string()),
+            };
+        }
+    }
     let mut child = match Command::new(&exe)
         .arg("worker")
         .arg(sock)
